@@ -318,16 +318,44 @@ Fixpoint check_order (names : list (string * expr)) (l : list (nat * string)) : 
   | it :: l' => do _ <- find_order_field names it; check_order names l'
   end.
 
+(* A FieldReferenceExpr points to the tree of the field it names (the first field with that
+   name), and Check rewrites that tree IN PLACE: once the field has been checked, every
+   reference to it made earlier -- also one sitting inside the definition carried by another
+   reference -- sees the checked tree, and ReturnType() of the reference is computed on it
+   (`zq1 + 'x' as zq0` is a number while zq1 is an unresolved name and text once zq1 has been
+   resolved to a text field).  [relink n d e]: the definition carried by every reference to [n]
+   in [e] becomes [d].  Only the places ReturnType() can reach are visited (not a function
+   name, not the field-name expression of a field access). *)
+Fixpoint relink (n : string) (d : expr) (e : expr) {struct e} : expr :=
+  match e with
+  | EBin p o l r => EBin p o (relink n d l) (relink n d r)
+  | ENot p r => ENot p (relink n d r)
+  | ECall p nm args => ECall p nm (map (relink n d) args)
+  | ERef p s d0 => if String.eqb s n then ERef p s d else ERef p s (relink n d d0)
+  | EList p items => EList p (map (relink n d) items)
+  | EAccess p l f => EAccess p (relink n d l) f
+  | _ => e
+  end.
+
+Definition has_name (n : string) (fs : list (string * expr)) : bool :=
+  existsb (fun nf => String.eqb (fst nf) n) fs.
+
+Definition relink_fields (n : string) (d : expr) (fs : list (string * expr)) : list (string * expr) :=
+  map (fun nf => (fst nf, relink n d (snd nf))) fs.
+
 (* SelectStmt.ValidateFields: the fields are checked one after the other; the Go checker
-   rewrites a field in place, so the fields checked later (and only those) see the rewritten
-   form of the earlier ones.  [done]: fields already checked, [todo]: still to do. *)
+   rewrites a field in place, so the fields checked later see the rewritten form of the earlier
+   ones, and the references made earlier to the field just checked see its rewritten form
+   (unless an earlier field has the same name: references go to that one).
+   [done]: fields already checked, [todo]: still to do (as the parser built them: no
+   references inside). *)
 Fixpoint validate_fields (done todo : list (string * expr)) : res (list (string * expr)) :=
   match todo with
   | [] => Ok done
   | (n, f) :: todo' =>
       do f2 <- check (Cctx (done ++ todo) false false) f;
       do _ <- aggr_field f2;
-      validate_fields (done ++ [(n, f2)]) todo'
+      validate_fields ((if has_name n done then done else relink_fields n f2 done) ++ [(n, f2)]) todo'
   end.
 
 Definition where_bool (w : expr) : res unit :=
